@@ -11,6 +11,12 @@
 (*              an error ping: first crossing defines it)                    *)
 (*  {"ev":"reply","id":I,"by":N}      a router answered request I            *)
 (*  {"ev":"end","id":I,"replied":B}                                          *)
+(*  {"ev":"maint","node":N,"ticks":[..],"idle_s":S,"removed":K}              *)
+(*      router N's periodic workers (routing table / connection state /      *)
+(*      ping handler / session cleaners) ticked after S seconds of idle      *)
+(*      time; K routes left its table. Housekeeping is no step of the        *)
+(*      forwarding machine: topology and frames stay as they are, and what   *)
+(*      is claimed of later requests ("conv") is claimed as before.          *)
 (***************************************************************************)
 EXTENDS Integers, Sequences, FiniteSets, TLC, Json
 
@@ -55,7 +61,12 @@ End == /\ Ev.ev = "end"
        /\ (Ev.id \in DOMAIN fr /\ fr[Ev.id].conv) => Ev.replied                  \* converged mesh: the reply reaches A
        /\ UNCHANGED <<n, links, fr>>
 
-TraceNext == l <= Len(Trace) /\ l' = l + 1 /\ (Topo \/ Originate \/ Cross \/ Reply \/ End)
+Maint == /\ Ev.ev = "maint"
+         /\ Ev.node \in 1..n
+         /\ Ev.removed >= 0 /\ Ev.idle_s >= 0
+         /\ UNCHANGED <<n, links, fr>>
+
+TraceNext == l <= Len(Trace) /\ l' = l + 1 /\ (Topo \/ Originate \/ Cross \/ Reply \/ End \/ Maint)
 
 TraceAccepted ==
   LET d == TLCGet("stats").diameter
